@@ -152,6 +152,31 @@ func runC16(c *core.Ctx) {
 					continue
 				}
 				checkedClose++
+				// the branch on which this very Close failed is exempt: only the success edge of a test of its result is followed
+				failedEdgePruned := func(res ssa.Value) func(b *ssa.BasicBlock) []*ssa.BasicBlock {
+					return func(b *ssa.BasicBlock) []*ssa.BasicBlock {
+						if len(b.Instrs) == 0 {
+							return b.Succs
+						}
+						iff, ok := b.Instrs[len(b.Instrs)-1].(*ssa.If)
+						if !ok {
+							return b.Succs
+						}
+						bo, ok := iff.Cond.(*ssa.BinOp)
+						if !ok || (bo.Op != token.NEQ && bo.Op != token.EQL) {
+							return b.Succs
+						}
+						isZero := func(v ssa.Value) bool { k, ok := v.(*ssa.Const); return ok && k.Value != nil && k.Int64() == 0 }
+						if (bo.X == res && isZero(bo.Y)) || (bo.Y == res && isZero(bo.X)) {
+							if bo.Op == token.NEQ {
+								return b.Succs[1:] // result != 0 → failed: follow the false edge only
+							}
+							return b.Succs[:1]
+						}
+						return b.Succs
+					}
+				}
+				pathsSuccs = failedEdgePruned(ssa.Value(call))
 				// forward search: every path to a Return passes a Delete(k)/InsertAt(_,k) — except returns of the close error
 				bad := pathsMissing(fn, call, func(i ssa.Instruction) bool {
 					ci, ok := i.(ssa.CallInstruction)
@@ -181,6 +206,59 @@ func runC16(c *core.Ctx) {
 						return 0
 					})
 				})
+				pathsSuccs = nil
+				// the close is an extracted step (closeRenumberTarget): the slot is replaced by the function that calls it
+				if bad != token.NoPos {
+					if kp, isParam := e.key.(*ssa.Parameter); isParam {
+						kidx := -1
+						for i, q := range fn.Params {
+							if q == kp {
+								kidx = i
+							}
+						}
+						// after the close the step reports success only
+						okStep := kidx >= 0 && pathsMissing(fn, call, func(ssa.Instruction) bool { return false }, func(r *ssa.Return) bool {
+							for _, v := range r.Results {
+								if k, ok := v.(*ssa.Const); !ok || k.Value == nil || k.Int64() != 0 {
+									return false
+								}
+							}
+							return true
+						}) == token.NoPos
+						sites := 0
+						for _, caller := range sysFns {
+							for _, cb := range caller.Blocks {
+								for _, cin := range cb.Instrs {
+									cc, ok := cin.(*ssa.Call)
+									if !ok || cc.Common().StaticCallee() != fn || caller == fn {
+										continue
+									}
+									sites++
+									karg := cc.Common().Args[kidx]
+									pathsSuccs = failedEdgePruned(ssa.Value(cc))
+									if pathsMissing(caller, cc, func(i ssa.Instruction) bool {
+										ci, ok := i.(ssa.CallInstruction)
+										if !ok {
+											return false
+										}
+										switch tableMethod(ci) {
+										case "Delete", "InsertAt":
+											args := ci.Common().Args
+											return sameValue(args[len(args)-1], karg)
+										}
+										return false
+									}, func(*ssa.Return) bool { return false }) != token.NoPos {
+										okStep = false
+									}
+									pathsSuccs = nil
+								}
+							}
+						}
+						if okStep && sites > 0 {
+							bad = token.NoPos
+						}
+					}
+				}
 				key := fmt.Sprintf("closed entry leaves slot in %s", core.SSAFuncName(fn))
 				c.Check(bad == token.NoPos, "R16.1", key, call.Pos(), "every successful path after closing the entry's file deletes or replaces its slot",
 					fmt.Sprintf("after closing the file of the entry looked up under %s, a path reaches the return at %s without deleting or replacing that slot: a closed entry stays in the descriptor table", e.key.Name(), c.Pos(bad)))
@@ -217,6 +295,51 @@ func runC16(c *core.Ctx) {
 				for ev, l := range entries {
 					if sameValue(l.key, k2) && ev != item {
 						closesTarget = true
+					}
+				}
+				if !closesTarget {
+					// … or hands k2 to a step of the package that looks the entry up and closes its file
+					for _, bb := range fn.Blocks {
+						for _, ii := range bb.Instrs {
+							hc, ok := ii.(*ssa.Call)
+							if !ok {
+								continue
+							}
+							h := hc.Common().StaticCallee()
+							if h == nil || h.Blocks == nil || h.Pkg != fn.Pkg || h == fn {
+								continue
+							}
+							for ai, a := range hc.Common().Args {
+								if !sameValue(a, k2) || ai >= len(h.Params) {
+									continue
+								}
+								looks, closes := false, false
+								for _, hb := range h.Blocks {
+									for _, hi := range hb.Instrs {
+										if cl, ok := hi.(*ssa.Call); ok {
+											nm := tableMethod(cl)
+											if nm == "" {
+												if f := cl.Common().StaticCallee(); f != nil && f.Name() == "LookupFile" {
+													nm = "Lookup"
+												}
+											}
+											if nm == "Lookup" {
+												args := cl.Common().Args
+												if args[len(args)-1] == ssa.Value(h.Params[ai]) {
+													looks = true
+												}
+											}
+											if cl.Common().IsInvoke() && cl.Common().Method.Name() == "Close" {
+												closes = true
+											}
+										}
+									}
+								}
+								if looks && closes {
+									closesTarget = true
+								}
+							}
+						}
 					}
 				}
 				if closesTarget {
@@ -526,6 +649,9 @@ func runC16(c *core.Ctx) {
 
 // pathsMissing searches forward from instruction start; returns the position of a Return reachable without passing an
 // instruction satisfying hit (and not exempt), or NoPos.
+// pathsSuccs, when set, restricts the successors pathsMissing follows (pruning of edges that are exempt).
+var pathsSuccs func(b *ssa.BasicBlock) []*ssa.BasicBlock
+
 func pathsMissing(fn *ssa.Function, start ssa.Instruction, hit func(ssa.Instruction) bool, exempt func(*ssa.Return) bool) token.Pos {
 	type st struct {
 		b   *ssa.BasicBlock
@@ -556,7 +682,11 @@ func pathsMissing(fn *ssa.Function, start ssa.Instruction, hit func(ssa.Instruct
 				return
 			}
 		}
-		for _, s := range b.Succs {
+		succs := b.Succs
+		if pathsSuccs != nil {
+			succs = pathsSuccs(b)
+		}
+		for _, s := range succs {
 			if !seen[s] {
 				seen[s] = true
 				walk(s, 0)
